@@ -89,6 +89,11 @@ def gen(rnd, ir, dn, oa, recs, hdr, sizes, **kw):
     if per == 0:
         h['plat']['incs'] = [1 if rnd.random() < budget / (2 * n) else 0 for _ in range(n)] + [0] * 4096
         h['plat']['incs'] = h['plat']['incs'][:4000]
+    # the clock need not start near 0: high values (beyond 16 / 32 bits when its C type allows) that still do not wrap
+    total = sum(h['plat']['incs'])
+    starts = [v for v in ((1 << (w // 2)) + 3, 1 << (w - 1), (1 << w) - 2 - total, 5 * 10 ** 9) if 0 < v and v + total <= (1 << w) - 2]
+    if starts and h['plat']['incs'] and rnd.random() < 0.6:
+        h['plat']['incs'][0] += rnd.choice(starts)
     return h
 
 
